@@ -18,6 +18,11 @@ type RemoteSigner struct {
 	SignErr error
 	NilSig  bool
 
+	// SpecSeq, when set, gives the KeySpec answers by query number (the last one repeats); Spec then follows the latest answer,
+	// so that Sign produces a signature that is valid for what was announced last.
+	SpecSeq     []signature.KeySpec
+	SpecQueries int
+
 	Calls [][]byte
 	Sigs  [][]byte
 }
@@ -86,6 +91,14 @@ func (s *RemoteSigner) Sign(payload []byte) ([]byte, []*x509.Certificate, error)
 func (s *RemoteSigner) KeySpec() (signature.KeySpec, error) {
 	if s.SpecErr != nil {
 		return signature.KeySpec{}, s.SpecErr
+	}
+	if len(s.SpecSeq) > 0 {
+		i := s.SpecQueries
+		if i >= len(s.SpecSeq) {
+			i = len(s.SpecSeq) - 1
+		}
+		s.SpecQueries++
+		s.Spec = s.SpecSeq[i]
 	}
 	return s.Spec, nil
 }
